@@ -341,7 +341,7 @@ def group_by_hid(lines, field="hid"):
     return order, groups
 
 
-def _validate_chunk(ctx, area, module, groups, hids, cfg, deque, timeout, cfg_text, max_cand, tag):
+def _validate_chunk(ctx, area, module, groups, hids, cfg, deque, timeout, cfg_text, max_cand, tag, quiet=False):
     rejected = []
     cur = list(hids)
     while cur:
@@ -364,14 +364,15 @@ def _validate_chunk(ctx, area, module, groups, hids, cfg, deque, timeout, cfg_te
         rejected.append((h, json.loads(flat[stuck - 1]), [json.loads(x) for x in groups[h]], stuck - 1 - first))
         cur = [x for x in cur if x != h]
         if len(rejected) >= max_cand:
-            ctx.notes.append("more than %d rejected histories in one chunk of %s; remainder of that chunk not validated"
-                             % (max_cand, module))
+            if not quiet and cur:
+                ctx.notes.append("%d rejected histories in one chunk of %s; remaining %d histories of that chunk not validated"
+                                 % (max_cand, module, len(cur)))
             return 0, rejected
     return len(cur), rejected
 
 
 def validate_histories(ctx, area, module, trace_path, cfg=None, field="hid", max_cand=8, deque=False,
-                       timeout=1800, cfg_text=None, chunk_events=300000, parallel=6):
+                       timeout=1800, cfg_text=None, chunk_events=300000, parallel=6, quiet=False):
     """Validate a Reset-concatenated trace against a *Trace.tla module.  The trace is cut into chunks of whole
     histories that are validated in parallel (one TLC each, -workers 1: the high-water mark register needs it).
     On rejection the offending history is set aside and the rest of its chunk is re-validated, so the remainder
@@ -392,7 +393,7 @@ def validate_histories(ctx, area, module, trace_path, cfg=None, field="hid", max
     if not chunks:
         return 0, []
     with ThreadPoolExecutor(max_workers=parallel) as ex:
-        futs = [ex.submit(_validate_chunk, ctx, area, module, groups, c, cfg, deque, timeout, cfg_text, max_cand, i)
+        futs = [ex.submit(_validate_chunk, ctx, area, module, groups, c, cfg, deque, timeout, cfg_text, max_cand, i, quiet)
                 for i, c in enumerate(chunks)]
         res = [f.result() for f in futs]
     return sum(r[0] for r in res), [x for r in res for x in r[1]]
